@@ -21,8 +21,19 @@ def arms_by_variant(f, enum_suffix):
     return out
 
 
-def names(facts, arm):
-    return {c.split("::")[-1] for c in arm_callees(facts, arm["body"])}
+def names(facts, arm, fn=None):
+    """callee names of an arm; a call through a local function value (`let append: fn(..) = if normalize { |p, t| .. } else
+    { |p, t| .. }; .. append(&mut parsed, v)`) stands for the callees of the closures the local can hold"""
+    out = {c.split("::")[-1] for c in arm_callees(facts, arm["body"])}
+    if fn is not None:
+        lets = {m["pat"]["lid"]: m["init"] for m in walk(fn["body"])
+                if m.get("s") == "Let" and m.get("pat", {}).get("p") == "Bind" and "init" in m}
+        for c in walk(arm["body"]):
+            if c.get("k") == "Call" and c["f"].get("k") == "Path" and c["f"].get("res") == "Local" and c["f"].get("lid") in lets:
+                for clo in walk(lets[c["f"]["lid"]]):
+                    if clo.get("k") == "Closure":
+                        out |= {x.split("::")[-1] for x in arm_callees(facts, clo["body"])}
+    return out
 
 
 def _neg_depth(root, target):
@@ -81,10 +92,12 @@ def _name_equality(body, param_lid):
 def c11_7(facts, res, e, rule="C11-7"):
     st = res.rule(rule, instances=0)
     target = None
-    for n in walk(e["body"]):
-        if n.get("k") == "If" and any(m.get("k") == "Call" and str(m["f"].get("path", "")).endswith("new_from_declaration") for m in walk(n["then"])):
-            if target is None or len(list(walk(n))) < len(list(walk(target))):
-                target = n
+    for g in facts.family(e):          # XmlElement::attributes and the private pieces it may be split into
+        for n in walk(g["body"]):
+            if n.get("k") == "If" and any(m.get("k") == "Call" and str(m["f"].get("path", "")).endswith("new_from_declaration") for m in walk(n["then"])):
+                if target is None or len(list(walk(n))) < len(list(walk(target))):
+                    target = n
+                    e = g
     if target is None:
         raise BrokenCheck("C11-7: no conditional guards XmlAttribute::new_from_declaration in XmlElement::attributes")
     lets = {m["pat"]["lid"]: m["init"] for m in walk(e["body"])
@@ -134,7 +147,7 @@ def c11_1(facts, res, rule="C11-1"):
             "Text": ({"normalize_ws"}, {"attr_value_from_name"})}
     for v, (must, must_not) in want.items():
         st["instances"] += 1
-        ns = names(facts, a[v]) if v in a else None
+        ns = names(facts, a[v], f) if v in a else None
         ok = ns is not None and must <= ns and not (must_not & ns)
         res.oblige(1, ok)
         if not ok:
@@ -148,7 +161,7 @@ def c11_1(facts, res, rule="C11-1"):
              "Text": ({"normalize_ws"}, {"expand_entity"})}
     for v, (must, must_not) in want2.items():
         st["instances"] += 1
-        ns = names(facts, b[v]) if v in b else None
+        ns = names(facts, b[v], g) if v in b else None
         ok = ns is not None and must <= ns and not (must_not & ns)
         res.oblige(1, ok)
         if not ok:
